@@ -28,7 +28,7 @@ TRUSTED = [
     "Coq 8.16.1 kernel (coqc); vm_compute only on closed template lines (bank/attribute substitution lemmas) and in the Examples",
     "coq/Model/CppLex.v as the definition of the value of a C++ literal (ISO C++ [lex.icon] [lex.fcon] [lex.bool] [lex.string] [lex.ppnumber]; LP64; "
     "source and execution character set byte-transparent UTF-8; no trigraphs; suffixes, octal/hex integers, \\u \\U refused)",
-    "hand model coq/Model/Consts.v of visit_Constant, cpp_string_literal, the re.sub whole-word substitution on the built-in retrieval / getAttribute lines, "
+    "hand model coq/Model/Consts.v of visit_Constant, cpp_string_literal, cpp_ast.replace_whole_words on the built-in retrieval / getAttribute lines, "
     "book_*_ttree.emit and *_ttree_fill.emit",
     "library facts not proved: Python's repr(float) prints a decimal that rounds back to the same double; a C++ compiler converts a decimal floating literal to the nearest double "
     "(the check's float oracle re-does the second conversion with exact rational arithmetic)",
@@ -304,7 +304,9 @@ def correspond(model: core.Model, backend: str, pos: str, v: Any, r, calib: Cali
     if pos == "dictkey":
         lines = list(mr[0])[2:]  # the executor supplies its own default tree name here: only the Branch line is compared
     for ln in lines:
-        if ln not in r[1]:
+        # the harness reads the file with universal new-lines: a raw CR (possible only in the C++ identifier built
+        # from a column name, outside this property's projection) comes back as LF
+        if ln.replace("\r\n", "\n").replace("\r", "\n") not in r[1]:
             return f"model line {ln!r} not in the generated file"
     return None
 
@@ -485,7 +487,7 @@ def check(tier: str, seed: int, t0: float, build: core.BuildStatus) -> int:
             if b == "cms_miniaod" and pos in ("col", "col1", "dictkey") and 'Branch(f"{var_pair[0]}"' in (r[1] if r[0] == "ok" else ""):
                 key = "c18:name:miniaod-branch-literal-fstring"
             seen_keys[key] = seen_keys.get(key, 0) + 1
-            if seen_keys[key] > 1 and key not in {k["key"] for k in core.known_findings()}:
+            if seen_keys[key] > 1 and key not in {k["key"] for k in core.known_findings() if k.get("status") == "known"}:
                 continue  # one replay per class; core.finish de-duplicates anyway
             small = v
             if type(v) is str and seen_keys[key] == 1:
@@ -531,7 +533,9 @@ def check(tier: str, seed: int, t0: float, build: core.BuildStatus) -> int:
     oc.samples = [[b, p, repr(v)] for b, p, v in cases[n_corpus + len(exh): n_corpus + len(exh) + 6]]
     oc.extra.update({"positions": hist_pos, "kinds": hist_kind, "outcomes": hist_out, "float_grammar_cases": n_gram, "model_available": model is not None,
                      "violation_classes_seen": seen_keys})
-    if not oc.violations and (ps.broken or oc.correspondence_breaks or model is None or core.build_hygiene_cache()):
+    known_keys = {k["key"] for k in core.known_findings() if k.get("property") == PID and k.get("status") == "known"}
+    unexplained = [x for x in oc.violations if x.key not in known_keys]
+    if not unexplained and (ps.broken or oc.correspondence_breaks or model is None or core.build_hygiene_cache()):
         what = ps.broken or (f"correspondence Consts vs the pipeline: {oc.correspondence_breaks[0]}" if oc.correspondence_breaks else
                              ("hygiene gate: " + "; ".join(core.build_hygiene_cache()) if core.build_hygiene_cache() else "model executable could not be built"))
         oc.violations.append(core.Violation(key="c18:unproved", what=what, no_failing_input=True,
